@@ -294,7 +294,10 @@ Definition sweeps_C02 : list disagreement :=
 (* ---------- C09: agent/sorter.go (merge sort and reversal in place in the caller's slice) ---------- *)
 Definition perms4 : list (list Z) :=
   [[]; [5]; [5; 3]; [3; 5]; [2; 2]; [3; 1; 2]; [1; 2; 3]; [3; 2; 1]; [2; 3; 1; 2]; [4; 3; 2; 1]; [1; 3; 2; 4; 0];
-   [5; 1; 4; 2; 3; 0]; [7; 6; 5; 4; 3; 2; 1]; [1; 1; 2; 1; 2; 2; 1; 3]; [9; 8; 7; 6; 5; 4; 3; 2; 1]].
+   [5; 1; 4; 2; 3; 0]; [7; 6; 5; 4; 3; 2; 1]; [1; 1; 2; 1; 2; 2; 1; 3]; [9; 8; 7; 6; 5; 4; 3; 2; 1]] ++
+  (* lengths at which a pass has a trailing run without a partner (11, 12, 23), reversed and rotated *)
+  map (fun n => rev (map Z.of_nat (seq 1 n))) [11; 12; 23]%nat ++
+  map (fun n => map Z.of_nat (seq 4 n ++ seq 1 3)) [11; 21]%nat.
 Definition srtv : val Z := srt_val VNil.
 Definition wb1 (l : list Z) : val Z := VWb srtv [(1%nat, VSlice (elems l))].
 Definition sweep_sorter_SortValues := flat_map (fun rk => flat_map (fun l =>
